@@ -61,6 +61,9 @@ pub fn signature_matches(sig: &str, sc: &Scenario, out: &RunOutput, v: &Violatio
         // F21: the oracle saw a sender with nothing in flight holding segments whose bytes
         // exceed the peer's (non-zero) window
         "aux-precut-beyond-window" => v.aux == Some(21),
+        // F31: the oracle saw that an end of the failing connection had a send refused
+        // ('pending') and was not polled again when the socket became writable
+        "aux-send-wakeup-lost" => v.aux == Some(31),
         // F1: an MTU probe (payload larger than the proven segment size) was delivered to the
         // receiver, its acknowledgement did not arrive in time, the probe was popped and its
         // bytes re-segmented under the same sequence number with a different length. The
